@@ -1,3 +1,4 @@
 import Cgm.Lemmas.AuditCmd
 import Cgm.E2E.C09
+import Cgm.E2E.C09b
 #audit_namespace Cg.E2E.C09
